@@ -36,7 +36,9 @@ def run(module, cfg, workdir, workers=4, xmx="4g", timeout=1800, extra=(), env=N
     shutil.rmtree(meta, ignore_errors=True)
     out = os.path.join(workdir, "tlc.out")
     libs = os.pathsep.join([SPEC, os.path.join(SPEC, "mc"), os.path.join(SPEC, "trace")])
-    cmd = ["timeout", str(timeout), "java", "-XX:+UseParallelGC", "-Xmx" + xmx, "-Xss64m"]
+    tmpd = os.path.join(workdir, "tmp")
+    os.makedirs(tmpd, exist_ok=True)
+    cmd = ["timeout", str(timeout), "java", "-XX:+UseParallelGC", "-Xmx" + xmx, "-Xss64m", "-Djava.io.tmpdir=" + tmpd]
     cmd += list(jvm)
     cmd += ["-cp", JAR, "-DTLA-Library=" + libs, "tlc2.TLC", "-workers", str(workers),
             "-metadir", meta, "-cleanup", "-noGenerateSpecTE", "-config", cfg]
